@@ -56,6 +56,9 @@ class NoneT(Type):
     def fresh(self, name):
         return None, []
 
+    def __repr__(self):
+        return "None"
+
 
 class Const(Type):
     def __init__(self, v):
@@ -69,6 +72,9 @@ class Const(Type):
 
 
 class ArrT(Type):
+    def __repr__(self):
+        return f"{self.kind}array{list(self.shape)}"
+
     def __init__(self, shape, kind="int", lo=None, hi=None):
         self.shape = tuple(shape)
         self.kind = kind
@@ -213,3 +219,18 @@ class GuardedRowsT(Type):
             v = Arr((self.width,), [z3.Int(fresh_name(f"{name}_v{k}_{c}")) for c in range(self.width)], "int")
             items.append((g, v))
         return M.Rows(GList(items), self.width), []
+
+
+class PyDictT(Type):
+    """python dict with constant string keys and typed values (e.g. generation_meta)"""
+
+    def __init__(self, **fields):
+        self.fields = fields
+
+    def fresh(self, name):
+        out, wf = {}, []
+        for k, t in self.fields.items():
+            v, w = t.fresh(f"{name}[{k}]")
+            out[k] = v
+            wf += w
+        return out, wf
